@@ -85,10 +85,22 @@ CHECKS["C04"] = dict(
          "evidence file); three construct classes are listed known findings.",
     design_ref="5/C04", engine="GIRControl")
 
+CHECKS["C14"] = dict(
+    category="exploration",
+    technique="deterministic TLA+ specification of the id discipline (Pipeline.tla) validating every run's trace with TLC + differential runs under a fixed set of schedules (hash seeds, locations, repetitions, prior runs)",
+    text="Each project is analysed end to end in separate processes under a fixed set of schedules; Pipeline.tla - a specification with one "
+         "behaviour per input - must accept the module/statement id trace of every run, and every output file (feather tables decoded, "
+         "workspace path replaced), the exit status and the order of analysed methods must equal the base schedule's.",
+    note="A hyperproperty over runs: the verdict rests on a finite set of schedules (seeds 0-4, two locations, with/without a previous run, "
+         "with/without --enable-p2 in the thorough tier); iteration orders CPython does not exhibit for these seeds are not explored.",
+    design_ref="5/C14, 6", engine="Pipeline")
+
 NOT_YET = {
 }
 
 ENGINES = [
+    dict(name="Pipeline", path="specs/Pipeline.tla harness/c14.py harness/c14_digest.py",
+         serves_properties=["C14"], kind_free_text="deterministic TLA+ spec as trace validator + differential runs"),
     dict(name="GIRControl", path="specs/GIRControl.tla harness/c04.py harness/skeleton.py harness/girjson.py harness/lianrun.py",
          serves_properties=["C04"], kind_free_text="executable TLA+ semantics of GIR control flow, TLC as interpreter/explorer"),
     dict(name="FlattenTrace", path="specs/FlattenTrace.tla harness/c03.py harness/corpus.py harness/lianrun.py",
